@@ -371,10 +371,14 @@ class LatticeColumn:
         return self.o[obs_ne]
 
     def values_all(self):
-        """All matches for the emitting layer and all non-emitting layers."""
-        values = set()
+        """All matches for the emitting layer and all non-emitting layers.
+
+        Returned as a list, ordered by layer and insertion. A set would be iterated in the
+        order of the (randomized) string hash of the matching's name.
+        """
+        values = []
         for o in self.o:
-            values.update(o.values())
+            values.extend(o.values())
         return values
 
     def values(self, obs_ne=None):
@@ -1306,7 +1310,9 @@ class BaseMatcher:
                     node_max = m
         else:
             for m in self.lattice[start_idx].values_all():  # type:BaseMatching
-                if not m.stop and (node_max is None or m.obs_ne > node_max_ne or m.logprob > node_max.logprob):
+                # Prefer the deepest non-emitting layer, then the highest probability (independent of the order)
+                if not m.stop and (node_max is None or m.obs_ne > node_max_ne or
+                                   (m.obs_ne == node_max_ne and m.logprob > node_max.logprob)):
                     node_max_ne = m.obs_ne
                     node_max = m
         if node_max is None:
